@@ -319,46 +319,51 @@ Fixpoint all_zero_val (v : val) : bool :=                      (* _all_close_to_
 (* the result of gradient_fn(tape): number of gradient tapes and the post-processing function *)
 Definition gradfn := (nat * (list Z -> val))%type.
 
+(* processing_fn of vjp(): contraction of the Jacobian returned by the gradient transform *)
+Definition vjp_proc (t : tape) (dy : val) (g : gradfn) (results : list Z) : res :=
+  let jac := snd g results in
+  let f := if multi t then compute_vjp_multi else compute_vjp_single in
+  if negb (partitioned t) then f dy jac
+  else match dy, jac with
+       | VTup ds, VTup js =>
+           match map2o (fun d j => res_t (f d j)) ds js with
+           | Some l => match all_some l with
+                       | Some ts => match sum_stack ts with Some s => Ok (VT s) | None => Err end
+                       | None => Err
+                       end
+           | None => Err
+           end
+       | _, _ => Err
+       end.
+
 Definition vjp_tape (t : tape) (dy : val) (g : gradfn) : nat * (list Z -> res) :=
   if Nat.eqb (tp_k t) 0 then (O, fun _ => Ok VNone)
   else if all_zero_val dy then (O, fun _ => Ok (VT (T1 (repeat 0 (tp_k t)))))
-  else (fst g, fun results =>
-         let jac := snd g results in
-         let f := if multi t then compute_vjp_multi else compute_vjp_single in
-         if negb (partitioned t) then f dy jac
-         else match dy, jac with
-              | VTup ds, VTup js =>
-                  match map2o (fun d j => res_t (f d j)) ds js with
-                  | Some l => match all_some l with
-                              | Some ts => match sum_stack ts with Some s => Ok (VT s) | None => Err end
-                              | None => Err
-                              end
-                  | None => Err
-                  end
-              | _, _ => Err
-              end).
+  else (fst g, vjp_proc t dy g).
 
 Definition zero_meas (d : nat) : val := VT (if Nat.eqb d 0 then T0 0 else T1 (repeat 0 d)).
 Definition zero_all (t : tape) : val :=
   match tp_meas t with [d] => zero_meas d | ms => VTup (map zero_meas ms) end.
+
+Definition jvp_proc (t : tape) (tg : list Z) (g : gradfn) (results : list Z) : res :=
+  let jac := snd g results in
+  let f := if multi t then compute_jvp_multi else compute_jvp_single in
+  if negb (partitioned t) then f tg jac
+  else match jac with
+       | VTup js =>
+           match all_some (map (fun i => nth_error js i) (seq 0 (tp_shots t))) with   (* jac[i], i < num_copies *)
+           | Some l => match all_ok (map (f tg) l) with Some r => Ok (VTup r) | None => Err end
+           | None => Err
+           end
+       | _ => Err
+       end.
 
 Definition jvp_tape (t : tape) (tg : list Z) (g : gradfn) : nat * (list Z -> res) :=
   if Nat.eqb (tp_k t) 0 then
     (O, fun _ => Ok (if partitioned t then VTup (repeat (zero_all t) (tp_shots t)) else zero_all t))
   else if forallb (Z.eqb 0) tg then
     (O, fun _ => Ok (zero_all t))                              (* the shortcut does not look at the shots *)
-  else (fst g, fun results =>
-         let jac := snd g results in
-         let f := if multi t then compute_jvp_multi else compute_jvp_single in
-         if negb (partitioned t) then f tg jac
-         else match jac with
-              | VTup js =>
-                  match all_some (map (fun i => nth_error js i) (seq 0 (tp_shots t))) with   (* jac[i] *)
-                  | Some l => match all_ok (map (f tg) l) with Some r => Ok (VTup r) | None => Err end
-                  | None => Err
-                  end
-              | _ => Err
-              end).
+  else (fst g, jvp_proc t tg g).
 
 (* ---------------- batch_vjp / batch_jvp processing_fn ---------------- *)
 (* iterating over a value (list.extend) *)
